@@ -65,7 +65,8 @@ class Explorer:
         self.enums0 = {k: v for k, v in F.enums.items() if all(int(x[1]) == 0 for x in v) and k in F.adts}
         # local enums that carry a payload ("carrier" enums a refactoring introduces to hand a classified result from one step to the next): tracked by
         # variant, with the shape of their first field
-        self.enumsN = {k: v for k, v in F.enums.items() if k in F.adts and F.adts[k].get('kind') == 'Enum' and any(int(x[1]) > 0 for x in v) and len(v) <= 8}
+        self.enumsN = {k: v for k, v in F.enums.items() if k in F.adts and F.adts[k].get('kind') == 'Enum' and any(int(x[1]) > 0 for x in v) and len(v) <= 8
+                       and not F.has_impl('Error', k)}    # error enums are payloads, never control state: not tracked (keeps the state space small)
 
     # ------------------------------------------------------------------ type universes
     def universe(self, t, depth=None):
